@@ -189,6 +189,8 @@ def binop(op, l, r):
             return l
     if op == "/" and r.op == "const" and type(r.a[0]) is float and r.a[0] == 1.0:
         return l
+    if op == "+" and l.op == "tuple" and r.op == "tuple":
+        return mk("tuple", *(tuple(l.a) + tuple(r.a)))
     if op == "-":
         # a[:, np.newaxis] - b[np.newaxis, :]  (or - b for a 1-d b) is the outer difference np.subtract.outer(a, b)
         ca, cb = _column_of(l), _row_of(r)
@@ -279,12 +281,31 @@ def boolop(op, items):
             flat.extend(it.a[1:])
         else:
             flat.append(it)
+    # literal True / False operands decide or drop out (`False and x` is False, `True and x` is x)
+    if any(x.op == "const" and isinstance(x.a[0], bool) for x in flat):
+        out = []
+        for x in flat:
+            if x.op == "const" and isinstance(x.a[0], bool):
+                if x.a[0] is (op == "or"):
+                    out.append(x)
+                    break  # short-circuit: later operands are never evaluated
+                continue
+            out.append(x)
+        if not out:
+            return const(op == "and")
+        if len(out) == 1:
+            return out[0]
+        if out[-1].op == "const" and isinstance(out[-1].a[0], bool) and len(out) >= 2:
+            pass
+        flat = out
     return mk("bool", op, *flat)
 
 
 def ite(c, a, b):
     if a is b:
         return a
+    if c.op == "const" and isinstance(c.a[0], bool):
+        return a if c.a[0] else b
     # `x if not c else y` is `y if c else x`; likewise for `is not` / `not in` / `!=` conditions
     while c.op == "un" and c.a[0] == "not":
         c = c.a[1]
@@ -337,6 +358,9 @@ def sub(base, idx):
             return base.a[k]
         if base.op == "list" and 0 <= k < len(base.a):
             return base.a[k]
+    if base.op == "tuple" and idx.op == "slice" and all(z.op == "const" and (z.a[0] is None or (isinstance(z.a[0], float) and z.a[0] == int(z.a[0]))) for z in idx.a):
+        lo, hi, st = [None if z.a[0] is None else int(z.a[0]) for z in idx.a]
+        return mk("tuple", *base.a[lo:hi:st])
     # x[slice(a, b)] is x[a:b]; x[slice(None)] is x[:]
     if idx.op == "call" and callee_name(idx.a[0]) == "builtins.slice" and 1 <= len(idx.a[1]) <= 3 and not idx.a[2]:
         a_ = list(idx.a[1])
@@ -371,6 +395,11 @@ def proj(t, k):
         return t.a[k]
     if t.op == "ite" and all(z.op in ("tuple", "list") for z in (t.a[1], t.a[2])):
         return ite(t.a[0], proj(t.a[1], k), proj(t.a[2], k))
+    if t.op == "comp" and t.a[0] == "list" and len(t.a[2]) == 1 and not t.a[3] and t.a[2][0].op not in ("call",) and k >= 0:
+        # [E(x) for x in X][k] is E(X[k]) for an indexable X
+        X, cid = t.a[2][0], t.a[4]
+        el = mk("iter", X, cid)
+        return rebuild(t.a[1], lambda z: sub(X, const(k)) if z is el else None)
     return mk("sub", t, const(k))
 
 
